@@ -425,7 +425,9 @@ def run_brace(desc):
             return st.lists(part_t, min_size=1, max_size=2)
         sub = st.deferred(lambda: tpl(depth + 1))
         brace = st.lists(sub, min_size=2, max_size=3).map(lambda alts: ('b', alts))
-        return st.lists(st.one_of(part_t, part_t, brace, rng, st.just(('t', '{x}')), st.just(('t', '\\{ab\\}'))), min_size=1, max_size=3)
+        # (`\\\\` is an escaped backslash: a brace right after it is NOT escaped)
+        return st.lists(st.one_of(part_t, part_t, brace, rng, st.just(('t', '{x}')), st.just(('t', '\\{ab\\}')), st.just(('t', '\\\\')),
+                                  brace), min_size=1, max_size=3)
 
     @seed(desc['seed'])
     @util.hyp_settings(desc['n'], shrink=False)
@@ -437,7 +439,8 @@ def run_brace(desc):
             return
         mod = F if mode == 'fn' else G
         fl = base_flags(mode, True, dot, [mod.SPLIT] if split else [])
-        names = list(N.all_names('ab.x1' + ('/' if mode == 'gl' else ''), 3)) + ['{x}', 'a{x}', '{ab}', '{a,b}', '11', '10', '9', 'x{x}x']
+        names = list(N.all_names('ab.x1' + ('/' if mode == 'gl' else ''), 3)) + ['{x}', 'a{x}', '{ab}', '{a,b}', '11', '10', '9', 'x{x}x',
+                                                                                        '\\', '\\a', '\\b', '\\x', '\\1', '\\2', 'a\\b', '\\{a,b}', '\\ab', 'a\\', '\\.']
         match, _ = match_fn(mode)
         case = {'mode': mode, 'template': text, 'expansions': exp[:20], 'dot': dot, 'entry': entry, 'split': split, 'kind': 'brace'}
         try:
@@ -457,6 +460,7 @@ def run_brace(desc):
         out.stats['cases'] += 1
         out.stats['brace_nested'] += any(p[0] == 'b' and any(q[0] == 'b' for a in p[1] for q in a) for p in t)
         out.stats['brace_with_range'] += any(p[0] == 'r' for p in t)
+        out.stats['brace_after_escaped_backslash'] += '\\\\{' in text
         if got != want:
             diff = sorted(got ^ want)
             out.violation(dict(case, name=diff[0], impl=diff[0] in got, want=diff[0] in want), size=len(text) * 10,
